@@ -137,7 +137,7 @@ def gen_case(rng, idx, tier, emphasis=None):
         spec = M.gen_spec(rng, n_zones=1)
         if idx % 16 == 8:
             M.force_share_portfolio_with_own_lag(rng, spec)
-    elif r == 2 and idx % 16 == 10 and M.gen_federation_with_an_ownerless_firm(random.Random(idx), maxtime=4) is not None:
+    elif r == 3 and idx % 16 == 11:
         # regions of one currency zone: capitalists and a profitable firm in one, a profitable firm WITHOUT owners in the others
         # (it retains its profits: nobody in another region has a claim on them)
         spec = M.gen_federation_with_an_ownerless_firm(rng, maxtime=rng.randint(3, 5)) or M.gen_spec(rng, n_zones=1)
